@@ -230,10 +230,20 @@ def rule_typed_attrs(ctx):
         w = ctx.where(fn.file, fn.node)
         if ty in REJECTING and not t.startswith("Err(syn::Error::new(new.span,"):
             ctx.report(f"typed:merge:{ty}", w, f"`{ty}::merge_attrs` no longer rejects a second attribute (e.g. `#[from(skip)] #[from(ignore)]` is silently accepted)", {"body": t[:200]})
-        if ty in MERGING and MERGING[ty] not in t:
+        merged_ok = ty in MERGING and MERGING[ty] in t
+        if ty == "ConversionsAttribute" and not merged_ok:
+            # through a helper of the part's type: `prev.owned.merge(new.owned)` with `fn merge(&mut self, other) { self.tys.extend(other.tys); .. }`
+            for mc_, _ in A.find(fn.block, "Expr::MethodCall"):
+                if A.render(mc_["receiver"]) == "prev.owned" and len(mc_["args"]) == 1 and A.render(A.peel(mc_["args"][0])) == "new.owned":
+                    for h in A.functions(fn.file):
+                        if h.name == mc_["method"]["sym"] and h.block is not None:
+                            prm_ = [x for p_ in h.node["sig"]["inputs"] if A.kind(p_) == "FnArg::Typed" for x in A.pat_idents(p_["0"]["pat"])]
+                            if len(prm_) == 1 and f"self.tys.extend({prm_[0]}.tys)" in A.fn_text(h):
+                                merged_ok = True
+        if ty in MERGING and not merged_ok:
             ctx.report(f"typed:merge:{ty}", w, f"`{ty}::merge_attrs` no longer concatenates the later attribute's entries after the earlier ones", {"body": t[:200]})
         if ty == "Either":
-            if "(Self::Left(p),Self::Left(n))=>" not in t or "(Self::Right(p),Self::Right(n))=>" not in t or "_=>return Err(" not in t:
+            if "(Self::Left(p),Self::Left(n))=>" not in t or "(Self::Right(p),Self::Right(n))=>" not in t or ("_=>return Err(" not in t and "_=>Err(" not in t):
                 ctx.report("typed:merge:Either", w, "`Either::merge_attrs` no longer rejects attributes of different kinds (e.g. `#[from(forward)] #[from(i32)]`)", {})
         if ty == "ContainerAttributes" and fn.file.rel.endswith("fmt/mod.rs"):
             # (the singular `fmt` / `rename_all` fields are decided semantically by OPT-ALG, optrules.rule_option_flow)
@@ -364,3 +374,33 @@ def rule_level_flags(ctx):
     ctx.instance("level-flags:positive-control")
     if sorted(x[3] for x in got) != ["owned", "ref_"]:
         ctx.report("level-flags:positive-control", "rules/positive/levelflags.rs", f"the positive control yields {[x[3] for x in got]} instead of ['owned', 'ref_']", {})
+
+
+def rule_position_grammar(ctx):
+    """POS-GRAMMAR: the attribute grammar a derive parses at a position is the one its own documentation lists there: for every `type <Position>Attribute = attr::<Grammar>;` alias whose doc comment enumerates the accepted spellings (`#[from]`, `#[from(skip)] #[from(ignore)]`, `#[from(forward)]`, `#[from(<types>)]`), the set of kinds listed equals the set of variants of the grammar enum in utils.rs (Empty / Skip / Forward / Types). A struct-level alias pointed at the variant grammar accepts `#[from(skip)] struct S(..)` and silently derives nothing."""
+    KIND = [(r"#\[\w+\]$", "Empty"), (r"#\[\w+\((skip|ignore)\)\]$", "Skip"), (r"#\[\w+\(forward\)\]$", "Forward"), (r"#\[\w+\(<types>\)\]$", "Types")]
+    utils = ctx.files.get(UTILS)
+    enums = {}
+    for it, mods, cfgs in A.iter_items(utils.ast["items"]):
+        if A.kind(it) == "Item::Enum":
+            enums[it["ident"]["sym"]] = [v["ident"]["sym"] for v in it["variants"]]
+    n = 0
+    for rel, f in sorted(ctx.files.items()):
+        if not rel.startswith("impl/src/") or rel == UTILS:
+            continue
+        for m in re.finditer(r"((?:[ \t]*///[^\n]*\n)+)[ \t]*type\s+(\w+Attribute)\s*=\s*attr::(\w+)\s*;", f.src):
+            doc, alias, target = m.group(1), m.group(2), m.group(3)
+            forms = re.findall(r"#\[[^\]\n]*\]", doc)
+            kinds = set()
+            for fm in forms:
+                fm_ = fm.replace(" ", "")
+                for rx, kd in KIND:
+                    if re.fullmatch(rx, fm_):
+                        kinds.add(kd)
+            if not kinds or target not in enums:
+                continue
+            n += 1
+            ctx.instance(f"pos-grammar:{rel}::{alias}", sample={"alias": alias, "grammar": target, "documented kinds": sorted(kinds), "grammar kinds": enums[target]})
+            if kinds != set(enums[target]):
+                ctx.report(f"pos-grammar:{rel}::{alias}", f"{rel}:{f.src.count(chr(10), 0, m.start(2)) + 1}", f"`{alias}` is parsed with `attr::{target}` (accepts {sorted(enums[target])}), but its documentation lists the spellings {sorted(kinds)}: the position accepts attributes that have no meaning there (e.g. `#[from(skip)]` on a struct derives nothing, silently) or refuses documented ones", {})
+    ctx.floor("documented attribute positions", n, 2)
